@@ -40,6 +40,10 @@ def rule_union(ck: Check, repo: Repo) -> None:
 
     def ref(v: Valuation):
         if not v("header"):
+            # without an existing header the request itself is rendered - under --merge-copyrights possibly in merged form
+            # (what a second run would make of it; C10-R10)
+            if v("merge"):
+                return ("render", ["reuse_info", "reuse_info.copy(copyright_lines=merge_copyright_lines(reuse_info.copyright_lines))"])
             return ("render", ["reuse_info"])
         if v(f"raise[ExpressionError]@{EXI}") or v(f"raise[ParseError]@{EXI}"):
             return ("raise", "CommentCreateError")
@@ -302,6 +306,62 @@ def rule_sibling_hides(ck: Check, repo: Repo, rid: str = "R9") -> None:
                     " New / MIT and - the sibling taking precedence - lint no longer reports Old / 0BSD for a.py", repo.loc(node))
 
 
+def rule_unrecognised_kept(ck: Check, repo: Repo, rid: str = "R11") -> None:
+    """Existing content that the finder does not recognise as a header is KEPT (it goes to place_header with the rest of
+    the text).  'Not recognised' includes 'declares something that cannot be parsed': contains_reuse_info answers False on
+    a parse error.  A statement that clears the kept text on that path discards what the file declared."""
+    r = ck.rule(rid, "content the finder does not recognise is handed on unchanged, never discarded")
+    q = "reuse.header.find_and_replace_header"
+    fn = repo.func(q)
+    ck.analysed_fn(q, "reuse.extract.contains_reuse_info")
+    # (a) the recogniser answers False for unparseable information
+    cri = repo.func("reuse.extract.contains_reuse_info")
+    swallowed = []
+    for h in ast.walk(cri):
+        if isinstance(h, ast.ExceptHandler) and any(isinstance(x, ast.Return) and isinstance(x.value, ast.Constant) and x.value.value is False for x in h.body):
+            swallowed += [ast.unparse(t) for t in (h.type.elts if isinstance(h.type, ast.Tuple) else [h.type] if h.type is not None else [])]
+    # (b) the handler of the finder's MissingReuseInfoError binds the whole text to one of the three parts
+    kept = None
+    handler = None
+    for t in ast.walk(fn):
+        if isinstance(t, ast.Try) and any("_find_first_spdx_comment" in ast.unparse(b) for b in t.body):
+            for h in t.handlers:
+                for st in h.body:
+                    if isinstance(st, ast.Assign) and isinstance(st.targets[0], ast.Tuple) and isinstance(st.value, ast.Tuple):
+                        for tg, v in zip(st.targets[0].elts, st.value.elts):
+                            if isinstance(v, ast.Name) and v.id == fn.args.args[0].arg and isinstance(tg, ast.Name):
+                                kept, handler = tg.id, t
+    if kept is None:
+        raise AnalysisError("find_and_replace_header: the path on which no header is found could not be read (shape not enumerated)")
+    r.instance("recogniser", {"answers_false_on": swallowed, "kept_in": kept}, q)
+    # (c) statements after the try that rebind the kept part to something that does not contain it
+    idx = fn.body.index(handler) if handler in fn.body else None
+    if idx is None:
+        raise AnalysisError("find_and_replace_header: finder call is not a top-level statement")
+    n = 0
+    for st in fn.body[idx + 1:]:
+        for sub in ast.walk(st):
+            if isinstance(sub, ast.Assign) and any(isinstance(t, ast.Name) and t.id == kept for t in sub.targets) \
+                    and not any(isinstance(x, ast.Name) and x.id == kept for x in ast.walk(sub.value)) \
+                    and not (isinstance(sub.value, ast.Call) and "_extract_shebang" in ast.unparse(sub.value.func)):
+                # guard under which it runs
+                guard = None
+                for g in ast.walk(st):
+                    if isinstance(g, ast.If) and sub in list(ast.walk(g)):
+                        guard = ast.unparse(g.test)
+                        break
+                n += 1
+                found_part = [a for a in ("header",) if guard and re.search(rf"\b{a}\b", guard)]
+                r.instance(f"clears:{guard}", {"statement": ast.unparse(sub), "guard": guard, "requires_found_header": bool(found_part)}, q)
+                if not found_part and swallowed:
+                    r.violation(q, f"`{ast.unparse(sub)}` under `{guard}` also runs when no header was recognised",
+                                f"the text was bound to `{kept}` because the finder recognised nothing - and contains_reuse_info answers False for"
+                                f" information it cannot parse ({', '.join(swallowed)}): a side file `b.png.license` with a valid copyright notice and"
+                                f" `SPDX-License-Identifier: MIT OR` is replaced wholesale by `reuse annotate -c Bob b.png` (exit 0), the notice is gone",
+                                repo.loc(sub))
+    r.floor(1, "statements that rebind the kept text", got=n) if False else None
+
+
 def run(ck: Check, repo: Repo) -> None:
     ck.explanation = (
         "R1 on every path of create_header with an existing header, the information handed to the renderer is the"
@@ -331,3 +391,4 @@ def run(ck: Check, repo: Repo) -> None:
     # the one text at the position found - a block cut short loses the notices on the cut line (shared with C08-R4)
     from . import c08
     c08.rule_partition(ck, repo, "R10")
+    rule_unrecognised_kept(ck, repo)
